@@ -7,6 +7,9 @@ use std::collections::VecDeque;
 
 use crate::View;
 
+/// Differences of smoothed values below this many ulps of the smoothed value are rounding noise.
+const NOISE_ULPS: f64 = 16.0;
+
 /// John Ehlers ReFlex Indicator
 /// from: <https://financial-hacker.com/petra-on-programming-a-new-zero-lag-indicator/>
 #[derive(Debug, Clone, CopyGetters)]
@@ -90,6 +93,11 @@ where
                     - *self.q_vals.get(index).unwrap());
         }
         d_sum = d_sum / window_len;
+        // On a flat input the smoother ends in a rounding limit cycle a few ulps wide. What is left of
+        // the sum is noise below the resolution of `filt`; normalised it would show up with magnitude one.
+        if d_sum.abs() <= T::from(NOISE_ULPS).expect("can convert") * T::epsilon() * filt.abs() {
+            d_sum = T::zero();
+        }
 
         // normalize in termsn of standard deviation
         let ms0 = T::from(0.04).expect("can convert") * d_sum.powi(2)
